@@ -6,7 +6,7 @@ import sys
 import engine
 from rulebase import Ctx
 
-TAGS = {"xfer": "R-XFER", "result": "R-RESULT-USED", "unwrap": "R-NO-UNWRAP", "codec": "R-REJ-UNKNOWN"}
+TAGS = {"xfer": "R-XFER", "result": "R-RESULT-USED", "unwrap": "R-NO-UNWRAP", "codec": "R-REJ-UNKNOWN", "index": "R-TAINT-INDEX", "alloc": "R-TAINT-ALLOC"}
 _cache = {}
 
 
@@ -26,6 +26,15 @@ def run(prop=None):
     for fn in (rt.r_xfer_rule, rt.r_result_used, rt.r_no_unwrap, rt.r_factory, rt.r_nopoll):
         try:
             obs += fn(ctx)
+        except Exception as ex:
+            res["ok"] = False
+            res["problems"].append("%s crashed on the controls crate: %s" % (fn.__name__, ex))
+    # the taint inventories (their count on /repo may legitimately drop to zero): parameter `n` of the index/alloc controls is the input-derived value
+    import rules_taint as tt
+    srcs = {f["path"]: ("n",) for f in facts.user_fns() if f["path"].rpartition("::")[2].split("_")[1:2] in (["index"], ["alloc"])}
+    for fn in (tt.r_taint_index, tt.r_taint_alloc):
+        try:
+            obs += fn(ctx, srcs)
         except Exception as ex:
             res["ok"] = False
             res["problems"].append("%s crashed on the controls crate: %s" % (fn.__name__, ex))
